@@ -437,6 +437,14 @@ func c17Scenarios(th bool) []vx.Scenario {
 	for _, ep := range []string{"pending", "request", "response"} {
 		out = append(out, c17Reassign(ep, "readd"), c17Reassign(ep, "delete"))
 	}
+	cpb := 2
+	if th {
+		cpb = 3
+	}
+	out = append(out, c17ConcFetch("request", cpb), c17ConcFetch("pending", cpb))
+	for _, n := range []int{20, 180, 215, 260, 600} {
+		out = append(out, c17LongURL(n))
+	}
 	// pairs: a legitimate call first (which fills caches), then every foreign / cross-backend call
 	legit := []agentCall{{"request", a1, "b1", "R1"}, {"request", a2, "b2", "R2"}, {"pending", a1, "b1", ""}, {"response", a1, "b1", "R1"}}
 	for _, l := range legit {
